@@ -383,6 +383,7 @@ func cmdRandom(args []string) {
 	} else {
 		scen = append(scen, nil)
 	}
+	driverErr := ""
 	var all []map[string]interface{}
 	var problems []Problem
 	stats := map[string]int{}
@@ -391,11 +392,14 @@ func cmdRandom(args []string) {
 	for si, batches := range scen {
 		g, derr := runScenario(*seed*1000+int64(si), *prefork, *rounds, batches, *verbose)
 		if derr != "" {
+			// the node stopped cooperating (own block rejected, ...): keep what was observed so far
 			fmt.Fprintln(os.Stderr, "driver error:", derr)
-			if g != nil {
-				b, _ := json.Marshal(map[string]interface{}{"problems": g.Problems})
-				fmt.Fprintln(os.Stderr, string(b))
+			driverErr = derr
+			if g == nil {
+				os.Exit(3)
 			}
+		}
+		if driverErr != "" && len(g.Problems) == 0 {
 			os.Exit(3)
 		}
 		all = append(all, map[string]interface{}{"op": "tracereset"})
@@ -415,6 +419,9 @@ func cmdRandom(args []string) {
 			}
 			stats["state_"+c.State]++
 		}
+		if driverErr != "" {
+			break
+		}
 	}
 	if *out != "" {
 		w, err := os.Create(*out)
@@ -430,7 +437,7 @@ func cmdRandom(args []string) {
 		bw.Flush()
 		w.Close()
 	}
-	sum := map[string]interface{}{"scenarios": len(scen), "events": len(all), "conversions": nconv, "blocks": nblocks, "problems": problems, "stats": stats, "samples": samples, "prefork": *prefork}
+	sum := map[string]interface{}{"scenarios": len(scen), "events": len(all), "conversions": nconv, "blocks": nblocks, "problems": problems, "stats": stats, "samples": samples, "prefork": *prefork, "driver_error": driverErr}
 	b, _ := json.Marshal(sum)
 	fmt.Println(string(b))
 }
